@@ -217,3 +217,7 @@ def shrink_candidates(case):
             for nv in (op["v"] & 7, op["v"] & 0xFFFF, op["v"] >> 1):
                 if nv != op["v"]:
                     yield dict(case, ops=ops[:i] + [dict(op, v=nv)] + ops[i + 1 :])
+
+
+def extra_coverage():
+    return {"catalogue_cross_check": snapshot.catalogue_exclusions()}
